@@ -1,1 +1,89 @@
-/-! C09 — property theorems (stub; no obligations yet) -/
+import Ypv.Spec.Edit
+/-!
+# C09 — queries never modify the document; creation adds exactly the missing path
+
+Purity of reads is checked DIRECTLY on the real code by the harness (deep snapshots around
+`exists()` / `get_nodes()`); in this functional model a query has no document to return, so there
+is nothing to prove about it.  The theorems below are about the creation block of
+`_get_optional_nodes` (`Ypv.createHere` / `fill` / `buildNext` in `Model/Edit.lean`) at the node
+where the first missing segment is created.
+-/
+namespace Ypv.C09
+open Ypv
+
+/-- FULL STATEMENT (not proved): `createPath leaf d segs = .ok ⟨d.graftAt (fun n => createHere n seg rest leaf) q, …⟩`
+where `q` is the address of the deepest existing node and `seg :: rest` the missing tail.
+**create_exact_partial (sequence).** Creating index `i ≥ len` in a sequence appends exactly
+`i + 1 - len` elements: the padding defaults and, last, the filled spine; the sequence grows to
+exactly `i + 1`; every element that existed keeps its position and content.
+Missing for the full statement: lifting through the existing prefix (`createList`/`createEntries`
+recursion = `graftAt`). -/
+theorem create_exact_partial_seq (a : Option Str) (items : List Node) (seg : PSeg) (rest : List PSeg)
+    (leaf : Scalar) (i : Int) (c : Node)
+    (hi : intOfSeg seg = some i) (h0 : 0 ≤ i) (hlen : items.length ≤ i.toNat) (hf : fill rest leaf = .ok c) :
+    ∃ items', createHere (.seq a items) seg rest leaf = .ok (.seq a items')
+      ∧ items'.length = i.toNat + 1
+      ∧ (∀ j, j < items.length → items'[j]? = items[j]?)
+      ∧ items'[i.toNat]? = some c := by
+  refine ⟨items ++ List.replicate (i.toNat - items.length) (buildNext rest leaf) ++ [c], ?_, ?_, ?_, ?_⟩
+  · have : ¬ i < 0 := by omega
+    simp [createHere, hi, this, hf]
+  · simp; omega
+  · intro j hj
+    rw [List.append_assoc, List.getElem?_append_left hj]
+  · rw [List.getElem?_append_right (by simp; omega)]
+    have : i.toNat - (items ++ List.replicate (i.toNat - items.length) (buildNext rest leaf)).length = 0 := by
+      simp; omega
+    rw [this]; rfl
+
+/-- **create_exact_partial (mapping).** Creating a missing key appends exactly one entry, keyed by
+the segment text, holding the filled spine; every entry that existed is unchanged, in order. -/
+theorem create_exact_partial_map (a : Option Str) (es : List (Key × Node)) (s : Str) (rest : List PSeg)
+    (leaf : Scalar) (c : Node) (hf : fill rest leaf = .ok c) :
+    createHere (.map a es) (.key s) rest leaf = .ok (.map a (es ++ [(.str s, c)])) := by
+  simp [createHere, hf]
+
+/-- The filled spine resolves to the leaf: following `fillAddr rest` in `fill rest leaf` reaches
+exactly the scalar `leaf` (the path now selects a node holding the value). -/
+theorem fill_resolves : ∀ (rest : List PSeg) (leaf : Scalar) (c : Node), fill rest leaf = .ok c →
+    c.get? (fillAddr rest) = some (.scalar none leaf)
+  | [], leaf, c, h => by
+    simp [fill] at h; subst h; simp [fillAddr, Node.get?]
+  | .key s :: rest, leaf, c, h => by
+    simp only [fill] at h
+    cases hf : fill rest leaf with
+    | error e => simp [hf, Except.map] at h
+    | ok c' =>
+      simp [hf, Except.map] at h; subst h
+      have ih := fill_resolves rest leaf c' hf
+      simp [fillAddr, Node.get?, Node.child?, List.lookup, ih]
+  | .index i :: rest, leaf, c, h => by
+    simp only [fill] at h
+    by_cases hneg : i < 0
+    · simp [hneg] at h
+    · cases hf : fill rest leaf with
+      | error e => simp [hneg, hf, Except.map] at h
+      | ok c' =>
+        simp [hneg, hf, Except.map] at h; subst h
+        have ih := fill_resolves rest leaf c' hf
+        simp [fillAddr, Node.get?, Node.child?, ih]
+
+/-- A path that exists completely creates nothing: with no segments left the node is returned as is. -/
+theorem create_nothing_when_present (leaf : Scalar) (n : Node) :
+    n.createPath leaf [] = .ok ⟨n, []⟩ := by
+  cases n <;> simp [Node.createPath]
+
+/-! ### Concrete witnesses -/
+
+/-- `l: [1]`, create `l[2].k[1] = x`: padded with the defaults of the following segment -/
+example : setOrCreate (.map none [(.str ['l'], .seq none [.scalar none (.int 1)])])
+      [.key ['l'], .index 2, .key ['k'], .index 1] (.str ['x']) .default
+    = .ok (.map none [(.str ['l'], .seq none [.scalar none (.int 1), .map none [],
+        .map none [(.str ['k'], .seq none [.scalar none (.str ['x']), .scalar none (.str ['x'])])]])]) := by
+  decide +kernel
+/-- known finding C09-F2: a null on the way is relayed and overwritten; the tail is not created -/
+example : setOrCreate (.map none [(.str ['a'], .scalar none .null)]) [.key ['a'], .key ['b'], .key ['c']] (.int 5) .default
+    = .ok (.map none [(.str ['a'], .scalar none (.int 5))]) := by
+  decide +kernel
+
+end Ypv.C09
